@@ -624,6 +624,9 @@ type Config struct {
 	Debug   int
 }
 
+var logOnce sync.Once
+var theLog *go9p.Logger
+
 type Server struct {
 	Srv *go9p.Srv
 	S   *S
@@ -634,7 +637,9 @@ type Server struct {
 func NewServer(c Config) *Server {
 	s := New()
 	s.FlushMode = c.Flush
-	srv := &go9p.Srv{Msize: c.Msize, Dotu: c.Dotu, Maxpend: c.Maxpend, Upool: Users{}, Id: "script", Debuglevel: c.Debug}
+	// one logger for all servers of the process (Srv.Start would start a goroutine per server)
+	logOnce.Do(func() { theLog = go9p.NewLogger(256) })
+	srv := &go9p.Srv{Msize: c.Msize, Dotu: c.Dotu, Maxpend: c.Maxpend, Upool: Users{}, Id: "script", Debuglevel: c.Debug, Log: theLog}
 	var ops interface{}
 	switch {
 	case c.Auth && c.Flush != FlushAbsent:
